@@ -21,10 +21,11 @@
 (*                                                                            *)
 (* Where the documentation gives no default the value is taken from the code  *)
 (* and marked [code]; nothing undocumented and ambiguous is asserted.         *)
-EXTENDS Integers, Sequences, FiniteSets, TLC, Json
+EXTENDS Integers, Sequences, FiniteSets, TLC, Json, Randomization
 
 CONSTANTS
-    Mode,        \* "cases": enumerate configuration entries; "expand": enumerate texts
+    Mode,        \* "cases": enumerate configuration entries; "expand": enumerate texts;
+                 \* "leak", "rlists": enumerate LISTS of entries of one section kind (section 4)
     Kinds,       \* subset of {"black", "rewriter", "agg", "route", "gnet"}
     RouteTypes,  \* subset of {"sendAllMatch", "sendFirstMatch", "consistentHashing"}
     MaxDests,    \* destinations per carbon route: 1..MaxDests (consistentHashing: 2..)
@@ -33,11 +34,20 @@ CONSTANTS
     NVals,       \* distinct values tried per string / integer option
     Alphabet,    \* tokens texts are built from (Mode = "expand")
     MaxLen,      \* texts have at most this many tokens
-    Deviation    \* "" (the documentation) or a named wrong reading, for the non-vacuity runs
+    Deviation,   \* "" (the documentation) or a named wrong reading, for the non-vacuity runs
+    MaxList,     \* lists have at most this many entries
+    FullNames,   \* Mode "leak": options with these names are tried at every pair of positions of
+                 \* lists of 2..MaxList entries, every other option in lists of two
+    RandK,       \* Mode "rlists": random option sets drawn per base entry ...
+    RandOpts,    \* ... of about this many options each ...
+    RandN        \* ... and random lists drawn per section kind and list length
 
 VARIABLES c,     \* the configuration entry under construction (Mode = "cases")
-          txt    \* the text under construction, a sequence of tokens (Mode = "expand")
-vars == <<c, txt>>
+          txt,   \* the text under construction, a sequence of tokens (Mode = "expand")
+          lst    \* a list of entries of one section kind: the [[route]] / [[aggregation]] /
+                 \* [[rewriter]] sections or blacklist lines of ONE configuration file, in file
+                 \* order = the init / admin commands of one sequence (Mode = "leak", "rlists")
+vars == <<c, txt, lst>>
 
 (***************************************************************************)
 (* 1. Interpolation of the configuration file                              *)
@@ -230,12 +240,13 @@ RewOld(cc) == IF cc.v1 = "re" THEN "/old_([a-z]+)/" ELSE "old_lit"
 RewMax(cc) == IF cc.v3 = "all" THEN -1 ELSE 3
 RewNot(cc) == IF ~Has(cc, "r", "not") THEN ""            \* docs/rewriting.md: not = '' in every example
               ELSE IF K(cc, "r", "not") = 1 THEN "not_lit" ELSE "/not_[0-9]+/"
+BlackVal(cc) == StrVal(cc.v1, "r", 1) \o cc.v3     \* v3: "" or a tag that tells the lines of one blacklist apart
 AggRegex == "^aggre\\.(\\w+)\\.in$"      \* ends in the anchor: a "$" that is not a reference
 AggInterval == 7200
 AggWait == 10800
 
 Params(cc) ==
-    CASE cc.kind = "black"    -> [method |-> cc.v1, value |-> StrVal(cc.v1, "r", 1)]
+    CASE cc.kind = "black"    -> [method |-> cc.v1, value |-> BlackVal(cc)]
       [] cc.kind = "rewriter" -> [old |-> RewOld(cc), new |-> CatAll(Tpl(cc.v2)), max |-> ToString(RewMax(cc))]
       [] cc.kind = "agg"      -> [fun |-> cc.v1, regex |-> AggRegex, format |-> CatAll(Tpl(cc.v2)),
                                   interval |-> ToString(AggInterval), wait |-> ToString(AggWait)]
@@ -247,7 +258,7 @@ Params(cc) ==
 
 \* ---- the expected entry ---------------------------------------------------
 ExpectBlack(cc) ==
-    [f \in MatchNames |-> IF f = cc.v1 THEN StrVal(cc.v1, "r", 1) ELSE ""]
+    [f \in MatchNames |-> IF f = cc.v1 THEN BlackVal(cc) ELSE ""]
 
 ExpectRewriter(cc, form) ==
     [old |-> RewOld(cc), new |-> Through(form, Tpl(cc.v2)), not |-> RewNot(cc), max |-> RewMax(cc)]
@@ -352,14 +363,17 @@ OptText(cc, o) ==
     ELSE StrVal(o.name, o.scope, o.k)
 
 Diff(a, b) == [f \in {f \in DOMAIN a : a[f] # b[f]} |-> b[f]]
-CaseOut(cc) ==
+\* cc: what is written (rendered by the driver); ee: the options in force, which decide the entry.
+\* The documentation says ee = cc; they differ only under a wrong reading (section 4).
+CaseOutE(cc, ee) ==
     [kind |-> cc.kind, v1 |-> cc.v1, v2 |-> cc.v2, v3 |-> cc.v3, nd |-> cc.nd,
      params |-> Params(cc),
      opts |-> {[scope |-> o.scope, name |-> o.name, ty |-> OptType(cc, o), text |-> OptText(cc, o)] : o \in cc.opts},
      forms |-> Forms(cc),
-     toml |-> Expect(cc, "toml"),
-     initdiff |-> Diff(Expect(cc, "toml"), Expect(cc, "init")),    \* fields where the init-command entry differs
-     cmddiff |-> Diff(Expect(cc, "toml"), Expect(cc, "cmd"))]
+     toml |-> Expect(ee, "toml"),
+     initdiff |-> Diff(Expect(ee, "toml"), Expect(ee, "init")),    \* fields where the init-command entry differs
+     cmddiff |-> Diff(Expect(ee, "toml"), Expect(ee, "cmd"))]
+CaseOut(cc) == CaseOutE(cc, cc)
 
 (***************************************************************************)
 (* 3. Sanity of the table itself (checked by TLC on every enumerated case) *)
@@ -393,23 +407,166 @@ DefaultsWhenUnset ==
         \A i \in 1..c.nd : \A d \in DestInts : Expect(c, "toml")[DestScope(i) \o "." \o d.field] = d.mul * d.def
 
 (***************************************************************************)
-(* 4. Enumeration                                                          *)
+(* 4. Several entries of one kind in one file / one command sequence       *)
+(*                                                                         *)
+(* docs/config.md describes every [[route]], [[aggregation]], [[rewriter]] *)
+(* section and every blacklist line by itself; the option tables and their *)
+(* defaults are per section.  docs/tcp-admin-interface.md describes every  *)
+(* command by itself.  Hence the table a LIST of entries must produce is   *)
+(* the list of what each entry must produce on its own:                    *)
+(*     ExpectAt(l, i, form) = Expect(l[i], form)                           *)
+(* in the order written, and nothing else is added.  "Each unspecified     *)
+(* option takes its documented default" -- also when the section before    *)
+(* set it; "no option is applied to the wrong destination" -- nor to the   *)
+(* wrong section.                                                          *)
+(*                                                                         *)
+(* Named wrong reading "section_leak": an option that an earlier section   *)
+(* of the file set and this section leaves out stays in force.             *)
+(***************************************************************************)
+ListMode == Mode \in {"leak", "rlists"}
+Section(cc) == IF cc.kind \in {"route", "gnet"} THEN "route" ELSE cc.kind
+Applies(cc, o) == \E u \in Universe(cc) : u.scope = o.scope /\ u.name = o.name
+
+\* the options in force for entry i of list l
+RECURSIVE Eff(_, _)
+Eff(l, i) ==
+    IF Deviation # "section_leak" \/ i = 1 THEN l[i]
+    ELSE LET prev == Eff(l, i - 1)
+         IN [l[i] EXCEPT !.opts = @ \cup {o \in prev.opts : /\ Applies(l[i], o)
+                                                           /\ ~Has(l[i], o.scope, o.name)
+                                                           /\ ~Has(l[i], o.scope, Other(o.name))}]
+ExpectAt(l, i, form) == Expect(Eff(l, i), form)
+
+CountKinds(l, kinds) == Cardinality({i \in 1..Len(l) : l[i].kind \in kinds})
+ListOut(l) ==
+    [section |-> Section(l[1]),
+     entries |-> [i \in 1..Len(l) |-> CaseOutE(l[i], Eff(l, i))],
+     forms   |-> {f \in {"toml", "init", "cmd"} : \A i \in 1..Len(l) : f \in Forms(l[i])},
+     \* what the whole file / sequence adds to the table: one entry per section, of its kind
+     added   |-> [added_black    |-> CountKinds(l, {"black"}),
+                  added_rewriter |-> CountKinds(l, {"rewriter"}),
+                  added_agg      |-> CountKinds(l, {"agg"}),
+                  added_route    |-> CountKinds(l, {"route", "gnet"})]]
+
+\* ---- sanity of the list reading ------------------------------------------
+\* an entry means the same whether it stands alone or among others
+EntriesIndependent == ListMode =>
+    \A i \in 1..Len(lst) : \A form \in {"toml", "cmd"} : ExpectAt(lst, i, form) = Expect(lst[i], form)
+
+\* every option an entry leaves out is at its documented default, whatever stands before it
+UnsetIsDefault(cc, e, s, p, tblI, tblB) ==
+    /\ \A d \in tblI : ~Has(cc, s, d.name) => e[p \o d.field] = d.mul * d.def
+    /\ \A d \in tblB : ~Has(cc, s, d.name) => e[p \o d.field] = (d.def = 1)
+UnsetMatchers(cc, e, s, p, names) ==
+    \A n \in names : (~Has(cc, s, n) /\ ~(n = "sub" /\ Has(cc, s, "substr"))) => e[p \o n] = ""
+UnsetTakesDefaultInList == ListMode =>
+    \A i \in 1..Len(lst) :
+        LET cc == lst[i]
+            e  == ExpectAt(lst, i, "toml")
+        IN /\ cc.kind = "gnet" =>
+                /\ UnsetIsDefault(cc, e, "r", "", GnetInts, GnetBools)
+                /\ UnsetMatchers(cc, e, "r", "", MatchNames)
+                /\ ~Has(cc, "r", "errBackoffFactor") => e["errBackoffFactor"] = "1.5"
+           /\ cc.kind = "route" =>
+                /\ UnsetMatchers(cc, e, "r", "", MatchNames)
+                /\ \A k \in 1..cc.nd : /\ UnsetIsDefault(cc, e, DestScope(k), DestScope(k) \o ".", DestInts, DestBools)
+                                       /\ UnsetMatchers(cc, e, DestScope(k), DestScope(k) \o ".", MatchNames)
+           /\ cc.kind = "agg" =>
+                /\ UnsetMatchers(cc, e, "r", "", MatchNames \ {"regex"})
+                /\ ~Has(cc, "r", "dropRaw") => e["dropRaw"] = FALSE
+                /\ ~Has(cc, "r", "cache") => e["cache"] = FALSE /\ ExpectAt(lst, i, "cmd")["cache"] = TRUE
+           /\ cc.kind = "rewriter" => (~Has(cc, "r", "not") => e["not"] = "")
+
+\* an option decides fields of its own entry only
+OptionStaysInItsEntry == ListMode =>
+    \A j \in 1..Len(lst) : \A o \in lst[j].opts :
+        LET l2 == [lst EXCEPT ![j] = Without(lst[j], o)]
+        IN \A i \in (1..Len(lst)) \ {j} : \A form \in {"toml", "cmd"} : ExpectAt(l2, i, form) = ExpectAt(lst, i, form)
+
+\* ---- the lists ------------------------------------------------------------
+\* Values are made distinct per position: a string / integer option of entry i gets value index
+\* k + NVals * (i - 1) (so that an option landing in the wrong entry shows even when both set it),
+\* blacklist lines get a per-position suffix.
+Taggable(cc, o) == cc.kind # "rewriter" /\ OptType(cc, o) \in {"str", "int"}
+Retag(cc, i) ==
+    [cc EXCEPT !.opts = {IF Taggable(cc, o) THEN [o EXCEPT !.k = @ + NVals * (i - 1)] ELSE o : o \in cc.opts},
+               !.v3 = IF cc.kind = "black" THEN "_e" \o ToString(i) ELSE @]
+
+BoolNames == {"pickle", "spool", "cache", "dropRaw", "sslverify", "blocking"}
+NonDefK(n) == IF n = "sslverify" THEN 0 ELSE 1        \* the value that is not the default (cache: TOML default)
+
+\* representative base entries (function / template / match kind do not matter here)
+RepBase(b) ==
+    CASE b.kind = "agg"      -> b.v1 \in {"sum", "max"} /\ b.v2 = "dollar"
+      [] b.kind = "rewriter" -> b.v3 = "all" /\ ((b.v1 = "lit" /\ b.v2 = "plain") \/ (b.v1 = "re" /\ b.v2 = "brace"))
+      [] b.kind = "black"    -> FALSE
+      [] OTHER               -> TRUE
+RepBases == {b \in Bases : RepBase(b)}
+IsFiller(b) ==
+    CASE b.kind = "agg"      -> b.v1 = "sum"
+      [] b.kind = "rewriter" -> b.v1 = "lit"
+      [] b.kind = "route"    -> b.nd = (IF b.v1 = "consistentHashing" THEN 2 ELSE 1)
+      [] OTHER               -> TRUE
+
+\* "leak" lists: entry i sets ONE option to a value that is not the default, a later entry j of the
+\* same or another type that knows the option leaves it out (bare, or with the other booleans of
+\* that scope set); the remaining position, if any, holds a bare entry of any representative type.
+LeakOpts(sb) == {o \in Universe(sb) : o.name \in (BoolNames \ {"cache"}) => o.k = NonDefK(o.name)}
+BoolFill(ob, o) == {u \in Universe(ob) : u.scope = o.scope /\ u.name \in BoolNames /\ u.name # o.name /\ u.k = NonDefK(u.name)}
+Omitters(ob, o) == {ob, [ob EXCEPT !.opts = BoolFill(ob, o)]}
+Shapes(m) == {sh \in (2..m) \X (1..m) \X (1..m) : sh[2] < sh[3] /\ sh[3] <= sh[1]}      \* <<length, i, j>>
+LeakList(S, M, F, sh) == [p \in 1..sh[1] |-> Retag(IF p = sh[2] THEN S ELSE IF p = sh[3] THEN M ELSE F, p)]
+ListsFor(sb, o, ob) ==
+    { LeakList([sb EXCEPT !.opts = {o}], M, F, sh) :
+        M \in Omitters(ob, o),
+        F \in {b \in RepBases : Section(b) = Section(sb) /\ IsFiller(b)},
+        sh \in Shapes(IF o.name \in FullNames THEN MaxList ELSE 2) }
+LeakLists ==
+    IF Mode # "leak" THEN {}
+    ELSE UNION { UNION { UNION { ListsFor(sb, o, ob) : ob \in {b \in RepBases : Section(b) = Section(sb) /\ Applies(b, o)} }
+                         : o \in LeakOpts(sb) }
+                 : sb \in RepBases }
+
+\* "rlists" lists: seeded random option sets (Randomization module, TLC -seed), random lists of them
+Conflict(o, u) == u # o /\ u.scope = o.scope /\ (u.name = o.name \/ u.name = Other(o.name))
+Less(u, o) == u.k < o.k \/ (u.k = o.k /\ u.name = "sub")
+Repair(S) == {o \in S : ~\E u \in S : Conflict(o, u) /\ Less(u, o)}         \* one value per option, sub or substr
+MinI(a, b) == IF a < b THEN a ELSE b
+RandEntries(b) ==
+    LET U == Universe(b)
+        n == IF Cardinality(U) <= RandOpts THEN (Cardinality(U) + 1) \div 2 ELSE RandOpts
+    IN IF U = {} THEN {b} ELSE {[b EXCEPT !.opts = Repair(S)] : S \in RandomSetOfSubsets(RandK, n, U)}
+RandListsOf(pool, n) ==
+    LET all == [1..n -> pool]
+    IN {[p \in 1..n |-> Retag(f[p], p)] : f \in RandomSubset(MinI(RandN, Cardinality(all)), all)}
+RandLists ==
+    IF Mode # "rlists" THEN {}
+    ELSE UNION { LET pool == UNION {RandEntries(b) : b \in {b \in Bases : Section(b) = sec}}
+                 IN UNION {RandListsOf(pool, n) : n \in 1..MaxList}
+                 : sec \in {Section(b) : b \in Bases} }
+
+(***************************************************************************)
+(* 5. Enumeration                                                          *)
 (***************************************************************************)
 NoCase == Base("none", "", "", "", 0)
-Init == IF Mode = "cases" THEN c \in Bases /\ txt = <<>>
-        ELSE c = NoCase /\ txt = <<>>
+Init == /\ IF Mode = "cases" THEN c \in Bases ELSE c = NoCase
+        /\ txt = <<>>
+        /\ IF Mode = "leak" THEN lst \in LeakLists
+           ELSE IF Mode = "rlists" THEN lst \in RandLists
+           ELSE lst = <<>>
 Deep(cc) == cc.kind \in DeepKinds /\ (cc.kind = "route" => cc.v1 \in DeepTypes /\ cc.nd <= DeepDests)
 Bound(cc) == IF Deep(cc) /\ DeepOpts > MaxOpts THEN DeepOpts ELSE MaxOpts
 AddOpt == /\ Mode = "cases" /\ Cardinality(c.opts) < Bound(c)
           /\ \E o \in Avail(c) : c' = [c EXCEPT !.opts = c.opts \cup {o}]
-          /\ UNCHANGED txt
+          /\ UNCHANGED <<txt, lst>>
 AddTok == /\ Mode = "expand" /\ Len(txt) < MaxLen
           /\ \E a \in Alphabet : txt' = Append(txt, a)
-          /\ UNCHANGED c
-Next == AddOpt \/ AddTok
+          /\ UNCHANGED <<c, lst>>
+Next == AddOpt \/ AddTok          \* lists are enumerated as initial states
 Spec == Init /\ [][Next]_vars
 
 EmitCase == Mode = "cases" => PrintT("@@C " \o ToJson(CaseOut(c)))
+EmitList == ListMode => PrintT("@@L " \o ToJson(ListOut(lst)))
 EmitText == (Mode = "expand" /\ ~Ambiguous(txt) /\ \E i \in 1..Len(txt) : txt[i] = "$")
                 => PrintT("@@X " \o ToJson([text |-> txt, expect |-> Exp(txt, 1)]))
 =============================================================================
